@@ -383,16 +383,20 @@ def term_tag(t, names):
     return ('app', t[1], tuple(term_tag(a, names) for a in t[2]))
 
 
-def subst_items(tag, sub):
+def subst_items(tag, sub, assign=None, top=True, nonec=None):
+    """model term -> the tag the REAL run produces for the same value: loop targets become the delivered items, f-strings are rendered,
+    terms the assignment makes None become None; operators CPython computes itself (constant receiver) cannot be compared"""
     if isinstance(tag, tuple):
-        if tag[0] == 'atom': return sub.get(tag[1], tag)
-        if tag[0] == 'app':
-            args = tuple(subst_items(a, sub) for a in tag[2]); f = tag[1]
+        if tag[0] == 'atom':
+            tag = sub.get(tag[1], tag)
+        elif tag[0] == 'app':
+            args = tuple(subst_items(a, sub, assign, True, nonec) for a in tag[2]); f = tag[1]
             native = [const_of(a)[0] for a in args]
             if (f.startswith('un:') and native[0]) or (f.startswith('bin:') and all(native)) or (f in CMPSYM.values() and native[0]) \
                     or (f.startswith('attr:') and native[0]) or (f == 'subscr' and native[0]) or (f.startswith('call') and native[0]) or (f == 'in' and native[1]):
                 raise SkipValidation('operator applied to a constant operand is computed by CPython itself')
-            return fold_fstring(('app', f, args))
+            tag = fold_fstring(('app', f, args))
+        if top and assign and assign.get(('none', tag)) and (nonec is None or tag in nonec): return None
     return tag
 
 
@@ -445,33 +449,39 @@ def tree_queries(tree, names, acc):
     return acc
 
 
-def walk_tree(tree, names, assign, asked, sub):
-    """the model's outcome under the assignment (loop targets are renamed to the items the real iterators deliver)"""
+def walk_tree(tree, names, assign, asked, sub, nonec=()):
+    """the model's outcome under the assignment"""
     if sub is None: raise SkipValidation('loop targets are not plain distinct names')
     def answer(q):
         if q not in asked: asked.append(q)
         return assign.get(q, False)
     def val(t):
-        return subst_items(term_tag(t, names), sub)
+        return subst_items(term_tag(t, names), sub, assign, True, nonec)
+    def pre(t):
+        return subst_items(term_tag(t, names), sub, assign, False, nonec)
     while 'o' not in tree:
         q = tree['q']
         if q[0] == 'truth':
             t = val(q[1])
-            b = False if assign.get(('none', t)) else answer(('truth', t))
+            b = t if t in (None, True, False) else answer(('truth', t))
+            b = bool(b)
         else:
-            t = val(q[1]); u = val(q[2])
-            if u is None: b = True if t is None else (False if t in (True, False) else answer(('none', t)))
-            elif isinstance(t, tuple) and t[0] in ('atom', 'item') and isinstance(u, tuple) and u[0] in ('atom', 'item') and not assign.get(('none', t)) and not assign.get(('none', u)): b = (t == u)
+            t = pre(q[1]); u = val(q[2])
+            if u is None:
+                if t is None: b = True
+                elif t in (True, False) or const_of(t)[0]: b = False
+                else: b = answer(('none', t)) if t in nonec else False
+            elif isinstance(t, tuple) and t[0] in ('atom', 'item') and isinstance(u, tuple) and u[0] in ('atom', 'item'): b = (t == u)
             else: raise SkipValidation('general identity test')
         tree = tree['y'] if b else tree['n']
     o = tree['o']
     if o[0] == 'stuck': return ('stuck',)
-    if o[0] == 'ret': return ('ret', nonify(val(o[1]), assign))
+    if o[0] == 'ret': return ('ret', val(o[1]))
     for k, (it, targets) in enumerate(o[1]):
         for j, t in enumerate(targets):
             if sub.get(names[t]) not in (('item', k), ('item', k, j)): raise SkipValidation('targets recorded by the model differ from the STORE instructions')
-    lo = [nonify(val(it), assign) for it, _ in o[1]]
-    y = [nonify(val(t), assign) for t in o[2]]
+    lo = [val(it) for it, _ in o[1]]
+    y = [val(t) for t in o[2]]
     return ('pass', lo, y, o[3])
 
 
@@ -606,7 +616,7 @@ def judge(p, reply, limit=256):
     def model_runner(a):
         asked = []
         try:
-            return walk_tree(tree, names, a, asked, sub), asked
+            return walk_tree(tree, names, a, asked, sub, nonec), asked
         except SkipValidation as e:
             skip.append(str(e)); return ('skip',), asked
     if validate: runners.append(model_runner)
@@ -714,6 +724,7 @@ def count_leaves(e):
 def label(e, names):
     """fill the placeholders from the iterator `names`"""
     if e[0] == 'a': return ('a', next(names))
+    if e[0] == 'lit': return e
     return (e[0],) + tuple(label(c, names) for c in e[1:])
 
 
@@ -788,7 +799,19 @@ def shrink(kind, e):
             if j is not None:
                 cur, curj, changed = cand, j, True
                 break
+    # generalise: the same shape with pairwise distinct atoms, if that fails too, is the canonical representative
+    names = iter(ATOMS)
+    distinct = label(strip_labels(cur), names)
+    if distinct != canon_rename(cur):
+        j = violates(kind, distinct)
+        if j is not None: return distinct, j
     return canon_rename(cur), curj
+
+
+def strip_labels(e):
+    if e[0] == 'a': return ('a', None)
+    if e[0] == 'lit': return e
+    return (e[0],) + tuple(strip_labels(c) for c in e[1:])
 
 
 def violation_key(kind, e):
